@@ -49,6 +49,11 @@
 // Enum parts (<router>-enum-s256on|off): code_challenge_method {no challenge,
 // S256, plain, absent, "s256", undefined} x op.Config.CodeMethodS256 x one client
 // per (authentication method x application type) as owner and caller.
+//
+// Request-object parts (<router>-robj, robj_test.go): the authorization request carries a signed
+// request object; each of code_challenge, code_challenge_method, redirect_uri, scope, state, nonce
+// travels in the query only / in the object only / in both with equal values. The automaton
+// describes the merged request (object's value where present, query's otherwise, per parameter).
 package c04
 
 import (
@@ -613,6 +618,10 @@ type mreq struct {
 	Ch     string // none | S256 | plain | nomethod | s256lc | S512 (see challengeOf)
 	Slot   int
 	URI    string // the redirect_uri the authorization request used
+	// RO: the authorization request carried a signed request object; placement of
+	// code_challenge, code_challenge_method, redirect_uri, scope, state, nonce (see robj_test.go).
+	// Ch / URI / the slot's scopes and nonce describe the MERGED request.
+	RO     string
 	Done   bool // reference automaton: user has authenticated
 	Gone   bool // reference automaton: consumed by a successful exchange
 	// Unsure: a request that referred to this authorization request (callback, or
@@ -667,6 +676,11 @@ type part struct {
 	loopURIs bool                    // public clients additionally authorize with a loopback redirect_uri on an unregistered port
 	s256Off  bool                    // op.Config.CodeMethodS256 off (nothing advertised in code_challenge_methods_supported)
 	plainS2  bool                    // verifier alphabet of a plain challenge also has the S256 transform of the right verifier
+	// robj: request-object placements (raw, see roPlacements). Clients that have a request-object
+	// key authorize ONLY with a signed request object, once per placement.
+	robj     []string
+	lean     bool // no exchanges of a never-issued / absent code (the other parts have them)
+	rocov    map[string]int          // "<parameter>=<letter> -> <outcome of the authorization request>" -> executions
 	mkCfg    func() *refstore.Config // client registrations (nil: rig.DefaultConfig)
 	cfg      *refstore.Config        // one instance of them for the oracle's look-ups
 	ncov     map[string]int          // near-miss variant -> executions
@@ -854,6 +868,12 @@ func (p *part) baseOps(s S) []string {
 	if len(s.Reqs) < p.maxReqs && alive < p.maxAlive {
 		for _, c := range p.authClients {
 			for _, ch := range p.chs {
+				if _, signs := roKeys[c]; signs && p.robj != nil {
+					for _, pl := range roFor(p.robj, ch) {
+						ops = append(ops, "A:"+c+":"+ch+":ro="+pl)
+					}
+					continue
+				}
 				ops = append(ops, "A:"+c+":"+ch)
 				if p.loopURIs && p.public(c) && ch != "none" {
 					ops = append(ops, "A:"+c+":"+ch+":loop")
@@ -888,6 +908,9 @@ func (p *part) baseOps(s S) []string {
 		uris = p.uris
 	}
 	for k := 0; k <= len(s.Codes)+1; k++ {
+		if p.lean && k >= len(s.Codes) {
+			break
+		}
 		kl := "g" // garbage
 		if k > len(s.Codes) {
 			kl = "e" // no code parameter at all
@@ -1036,8 +1059,15 @@ func (p *part) exec(r *rig.Rig, s *S, op string, fp *faultPlan) engine.Result {
 	case "A":
 		client, ch, slot := f[1], f[2], len(s.Reqs)
 		uri := reqURI(client, slot)
+		ro := ""
 		if len(f) > 3 && f[3] == "loop" {
 			uri = uriLoop
+		} else if len(f) > 3 {
+			pl, ok := strings.CutPrefix(f[3], "ro=")
+			if n, okn := roNormalise(pl, ch); !ok || !roValid(pl) || !okn || n != pl {
+				return engine.Result{Rule: "internal", Outcome: "bad-op"}
+			}
+			ro = pl
 		}
 		q := url.Values{"client_id": {client}, "redirect_uri": {uri}, "response_type": {"code"},
 			"scope": {slotScopes[slot]}, "state": {slotState[slot]}, "nonce": {slotNonce[slot]}}
@@ -1047,7 +1077,50 @@ func (p *part) exec(r *rig.Rig, s *S, op string, fp *faultPlan) engine.Result {
 				q.Set("code_challenge_method", m)
 			}
 		}
+		if ro != "" {
+			// the same request, its parameters distributed over query and signed request object
+			vals := map[string]string{}
+			for _, name := range roParams {
+				vals[name] = q.Get(name)
+				q.Del(name)
+			}
+			inQuery, inObject := roSplit(ro, ch, slot, vals)
+			for k, v := range inQuery {
+				q.Set(k, v)
+			}
+			q.Set("request", roSign(client, inObject))
+		}
 		id, resp := r.Authorize(p.router, q)
+		if ro != "" {
+			out := "refused"
+			if id != "" {
+				out = "login-redirect"
+			}
+			p.mu.Lock()
+			for i, name := range roParams {
+				p.rocov[name+"="+ro[i:i+1]+" -> "+out]++
+			}
+			p.mu.Unlock()
+			if id == "" {
+				switch {
+				case roHomogeneous(ro):
+					// every parameter in the query (the object names only its signer), or every parameter in
+					// both places with equal values: the baseline of the dimension
+					return engine.Bad("authorize-request-object", obsClass(resp), "C04/baseline-refused/"+rn+"/authorize-request-object",
+						fmt.Sprintf("a well-formed authorization request of %s (%s) with a signed request object (placement %s) did not reach the login redirect: %d %s", client, ch, ro, resp.Status, clip(resp.Body)))
+				case ro[roPosScope] == 'o':
+					// OIDC Core 6.1: the scope parameter (with openid) must be present in the query even when a request object is used
+					return engine.OK("authorize-ro-scope-only-in-object", obsClass(resp))
+				}
+				// which distributions the authorization endpoint accepts is not the statement's business
+				return engine.OK("authorize-ro-refused", obsClass(resp))
+			}
+			s.Reqs = append(s.Reqs, mreq{ID: id, Client: client, Ch: ch, Slot: slot, URI: uri, RO: ro})
+			if roHomogeneous(ro) {
+				return engine.OK("authorize-request-object", "login-redirect")
+			}
+			return engine.OK("authorize-ro-mixed", "login-redirect")
+		}
 		if id == "" && len(f) > 3 { // a redirect_uri that is not literally registered: what the authorization endpoint accepts is C03's business
 			return engine.OK("authorize-unregistered-loopback-port", obsClass(resp))
 		}
@@ -1310,6 +1383,11 @@ func (p *part) judge(s *S, cr codeRef, ca caller, uri, ver, channel string) verd
 			either = "x-either-pkce-not-advertised"
 		}
 	}
+	if rq.RO != "" && !roHomogeneous(rq.RO) && either == "" {
+		// the parameters of the request were split between query and request object: that the
+		// provider serves such a request at all is not demanded; every refusal above is
+		either = "x-either-request-object-mixed-placement"
+	}
 	if either != "" {
 		return verdict{"either", either, "", ""}
 	}
@@ -1426,7 +1504,11 @@ func (p *part) exchange(r *rig.Rig, s *S, f []string, fp *faultPlan) engine.Resu
 }
 
 func describe(rq mreq) string {
-	return fmt.Sprintf("{client=%s challenge=%s slot=%d uri=%s done=%v consumed=%v}", rq.Client, rq.Ch, rq.Slot, rq.URI, rq.Done, rq.Gone)
+	ro := ""
+	if rq.RO != "" {
+		ro = " request-object-placement(challenge,method,redirect_uri,scope,state,nonce)=" + rq.RO
+	}
+	return fmt.Sprintf("{client=%s challenge=%s slot=%d uri=%s%s done=%v consumed=%v}", rq.Client, rq.Ch, rq.Slot, rq.URI, ro, rq.Done, rq.Gone)
 }
 
 // content checks that issued tokens carry subject, client, scopes and nonce of
@@ -1559,7 +1641,7 @@ func canon(s S) string {
 	reqIdx := map[string]int{}
 	for i, r := range s.Reqs {
 		reqIdx[r.ID] = i
-		fmt.Fprintf(&b, "R%d{%s %s %d %s %v %v %v|", i, r.Client, r.Ch, r.Slot, r.URI, r.Done, r.Gone, r.Unsure)
+		fmt.Fprintf(&b, "R%d{%s %s %d %s %v %v %v %v|", i, r.Client, r.Ch, r.Slot, r.URI, r.Done, r.Gone, r.Unsure, roClass(r.RO))
 		if a, ok := s.St.AuthReqs[r.ID]; ok {
 			ch := "-"
 			if a.Challenge != nil {
@@ -1735,8 +1817,21 @@ func TestCheck(t *testing.T) {
 			})
 		}
 	}
+	// request objects: the parameters of the authorization request travel in the query, in a signed
+	// request object, or in both (see robj_test.go). Owners: confidential basic, public native and
+	// private_key_jwt client, each with a registered request-object key.
+	for router := 0; router < 2; router++ {
+		parts = append(parts, &part{
+			name: rig.Routers[router] + "-robj", router: router, mkCfg: robjConfig,
+			robj:        roPlacements(c.Thorough()),
+			authClients: []string{"web", "pub", "jwt"}, chs: engine.Pick(c, []string{"none", "S256", "plain"}, []string{"none", "S256", "plain", "nomethod"}),
+			callers: callersFor("web/right", "web2", "pub", "jwt/right"), lean: true,
+			maxReqs: 2, maxAlive: 2, maxPerReq: 1, maxCodes: 2, depth: engine.Pick(c, 6, 7),
+		})
+	}
 	fcov := map[string]map[string]int{}
 	ncov := map[string]map[string]int{}
+	rocov := map[string]map[string]int{}
 	if only := os.Getenv("VERIF_C04_ONLY"); only != "" { // development aid: parts whose name contains the value; never exhaustive
 		c.Cap("VERIF_C04_ONLY=" + only + ": only a subset of the parts was run")
 		parts = slices.DeleteFunc(parts, func(p *part) bool { return !strings.Contains(p.name, only) })
@@ -1749,6 +1844,10 @@ func TestCheck(t *testing.T) {
 		if p.near || p.plainS2 {
 			p.ncov = map[string]int{}
 			ncov[p.name] = p.ncov
+		}
+		if p.robj != nil {
+			p.rocov = map[string]int{}
+			rocov[p.name] = p.rocov
 		}
 		engine.RunE2(c, engine.E2[S]{
 			Part:      p.name,
@@ -1764,4 +1863,6 @@ func TestCheck(t *testing.T) {
 	c.Extra("fault_coverage", fcov)
 	// per near part: "<parameter> <variant>" -> exchanges that presented it
 	c.Extra("near_miss_coverage", ncov)
+	// per request-object part: "<parameter>=<q|o|b|d|-> -> <login-redirect|refused>" -> authorization requests
+	c.Extra("request_object_coverage", rocov)
 }
